@@ -556,6 +556,10 @@ def scenario_scaler(rng, props, fails, stats):
     return describe(p, kw)
 
 
+class UserFault(Exception):
+    """an exception class of the user's own"""
+
+
 def scenario_faults(rng, props, fails, stats):
     """C20: an exception raised by a user callable at call index i propagates unchanged; a later identical fault-free
     call returns what a fresh call returns."""
@@ -568,7 +572,8 @@ def scenario_faults(rng, props, fails, stats):
     if exc is not None:
         return describe(p, kw)
     kind = rng.choice(["fun", "jac", "callback", "ftarget", "gtol", "scaler"])
-    ecls = rng.choice([ValueError, TypeError, RuntimeError, KeyError, ZeroDivisionError, FloatingPointError])
+    ecls = rng.choice([ValueError, TypeError, RuntimeError, KeyError, ZeroDivisionError, FloatingPointError,
+                       StopIteration, AssertionError, OSError, UserFault])
     kw1 = dict(kw)
     marker = {}
     if kind in ("fun", "jac", "callback"):
